@@ -14,6 +14,7 @@ import (
 	"github.com/kercylan98/vivid/internal/remoting"
 	"github.com/kercylan98/vivid/internal/scheduler"
 	"github.com/kercylan98/vivid/internal/sugar"
+	"github.com/kercylan98/vivid/internal/verifhook"
 	"github.com/kercylan98/vivid/pkg/log"
 	"github.com/kercylan98/vivid/pkg/metrics"
 	"github.com/kercylan98/vivid/pkg/ves"
@@ -145,8 +146,11 @@ func (s *System) Start() error {
 	s.Logger().Debug("actor system started")
 
 	// 守护系统上下文
+	verifhook.Yield("sys.guardian.go", s)
 	go func() {
+		verifhook.Yield("sys.guardian.wait", s)
 		<-s.options.Context.Done()
+		verifhook.Yield("sys.guardian.woken", s)
 		s.statusLock.Lock()
 		defer s.statusLock.Unlock()
 		_ = s.stop(false) // 无意义错误
